@@ -203,6 +203,11 @@ def check_readspec(ctx, repo):
             sl = n.slice.elts[0] if isinstance(n.slice, ast.Tuple) else n.slice
             forms = _rowsel_forms(sl, fa)
             bad = [s for s, ex in forms if s != 'thisfiber - 1' and not ex]
+            # the znum branch: row = (fibre - 1) * nper + (znum - 1), decided on the polynomial normal form of the whole index
+            for s_, ex in forms:
+                if ex:
+                    bad += _znum_row_bad(sl, fa)
+                    break
             ctx.check('C16.ROWSEL', not bad and bool(forms), f, n, 'row selector of %s is thisfiber - 1 (%s)' % (src(n.value)[:30], sorted(set(s for s, _ in forms))),
                       msg='a per-file read selects rows %s instead of thisfiber - 1: every returned row would come from the wrong fibre'
                           % (bad or src(sl)), construct='row selector ' + src(sl))
@@ -242,6 +247,54 @@ def check_readspec(ctx, repo):
     ok = bool(ll) and src(ll[0].value.args[0]) == 'loglam0' and src(ll[0].value.args[1]).replace(' ', '') == '(thisfiber.size,npix)'
     ctx.check('C16.LOGLAM', ok, f, ll[0] if ll else ll0[0], 'loglam block is loglam0 resized to (nfiber, npix)',
               msg='the wavelength block is not loglam0 resized to (thisfiber.size, npix)', construct='loglam block')
+
+
+def _znum_row_bad(sl, fa):
+    from ..poly import poly_of, NotPoly, Poly
+
+    def atom(e):
+        if isinstance(e, ast.Subscript) and src(e).replace('"', "'") == "kwargs['znum']":
+            return 'znum'
+        if isinstance(e, ast.Name) and e.id in ('thisfiber', 'nper'):
+            return e.id
+        return None
+
+    def expand(e, depth=0):
+        """all index polynomials over the reaching definitions of the names in e"""
+        names = [n for n in ast.walk(e) if isinstance(n, ast.Name) and n.id not in ('thisfiber', 'nper', 'kwargs') and isinstance(n.ctx, ast.Load)]
+        if not names or depth > 3:
+            try:
+                return [poly_of(e, atom=atom)]
+            except NotPoly:
+                return [None]
+        out = []
+        nm = names[0]
+        for d, v in fa.defs(nm):
+            if v is None:
+                out.append(None)
+                continue
+            from ..astutil import clone
+            e2 = clone(e)
+            for x in ast.walk(e2):
+                for fld, val in ast.iter_fields(x):
+                    if isinstance(val, ast.Name) and val.id == nm.id:
+                        setattr(x, fld, clone(v))
+                    elif isinstance(val, list):
+                        for i, y in enumerate(val):
+                            if isinstance(y, ast.Name) and y.id == nm.id:
+                                val[i] = clone(v)
+            if isinstance(e2, ast.Name) and e2.id == nm.id:
+                e2 = clone(v)
+            out.extend(expand(e2, depth + 1))
+        return out
+    A = Poly.atom
+    one = Poly.const(1)
+    want = [A('thisfiber') - one, (A('thisfiber') - one) * A('nper') + A('znum') - one]
+    bad = []
+    for p in expand(sl):
+        if p is None or not any(p == w for w in want):
+            bad.append('%s (a fibre number becomes a row by exactly one `- 1`: thisfiber - 1, or (thisfiber - 1)*nper + znum - 1)' % (p if p is not None else src(sl)))
+    return bad
 
 
 def _rowsel_forms(sl, fa, depth=0):
